@@ -16,7 +16,9 @@ const PATHS: [&str; 15] = ["time", "strings", "math/rand", "crypto/rand", "gopkg
     "example.com/t1", "example.com/t2", "example.com/t3", "example.com/ret4"];
 
 /// what the program declares for the package and how it uses it
-const USES: [&str; 20] = [
+const USES: [&str; 23] = [
+    // a foreign type that no foreign function mentions stands for no Go type: refused, or else the Go must be valid
+    "type-no-function-mentions-in-a-vector", "type-no-function-mentions-in-a-parameter", "type-no-function-mentions-declared-only",
     // a variant / a struct of the program spelled like a foreign type
     "type-next-to-a-variant-named-like-it", "type-next-to-a-function-named-like-it",
     // an item of the program spelled like the name the package is imported under
@@ -115,6 +117,18 @@ fn program(paths: &[&str], usage: &str, placement: &str) -> String {
                     main.push_str(&format!("    string_println(int32_to_string({q}th{k}(2)));\n", k = k, q = q));
                 }
             }
+            "type-no-function-mentions-in-a-vector" => {
+                decls.push_str(&format!("extern type Tn{k}\nextern \"go\" \"{}\" \"Make\" mk{k}(n: int32) -> int32\n", p, k = k));
+                main.push_str(&format!("    let w{k}: Vec[{q}Tn{k}] = vec_new();\n    string_println(int32_to_string(vec_len(w{k}) + {q}mk{k}(1)));\n", k = k, q = q));
+            }
+            "type-no-function-mentions-in-a-parameter" => {
+                decls.push_str(&format!("extern type Tn{k}\nextern \"go\" \"{}\" \"Make\" mk{k}(n: int32) -> int32\nfn takes{k}(t: Tn{k}) -> int32 {{ 0 }}\n", p, k = k));
+                main.push_str(&format!("    string_println(int32_to_string({q}mk{k}(1)));\n", k = k, q = q));
+            }
+            "type-no-function-mentions-declared-only" => {
+                decls.push_str(&format!("extern type Tn{k}\nextern \"go\" \"{}\" \"Make\" mk{k}(n: int32) -> int32\n", p, k = k));
+                main.push_str(&format!("    string_println(int32_to_string({q}mk{k}(1)));\n", k = k, q = q));
+            }
             "type-and-fn-called" => {
                 decls.push_str(&format!("extern type Th{k}\nextern \"go\" \"{}\" \"Make\" mk{k}(n: int32) -> Th{k}\nextern \"go\" \"{}\" \"Show\" show{k}(t: Th{k}) -> string\n", p, p, k = k));
                 main.push_str(&format!("    let v{k} = {q}mk{k}(1);\n    string_println({q}show{k}(v{k}));\n", k = k, q = q));
@@ -177,6 +191,11 @@ impl Family for Externs {
             CompileOutcome::Panic(m) => {
                 let m = normalise_msg(&m);
                 rep.findings.push(Finding { property: "C04", class: "compile.panic".into(), site: format!("{};msg={}", site, m), detail: m, replay });
+                return rep;
+            }
+            CompileOutcome::Err(e) if usage.starts_with("type-no-function-mentions") && describe_err(&e).0 == "typer" => {
+                // refused with a diagnostic: the other way to keep the promise
+                rep.tag("foreign-type-without-a-go-type:rejected");
                 return rep;
             }
             CompileOutcome::Err(e) => {
